@@ -318,9 +318,14 @@ def strat_tele_hist(draw, tier):
     h, w = draw(st.sampled_from([2, 3, 4])), draw(st.sampled_from([3, 4, 5]))
     cells = [(y, x) for y in range(h) for x in range(w)]
     k = draw(st.integers(3, min(6, len(cells))))
+    if draw(st.integers(0, 5)) == 0:
+        # a crowd of telepods of one colour (more partners than any small constant a choice might be reduced by)
+        h, w = draw(st.sampled_from([(4, 5), (5, 5), (3, 7)]))
+        cells = [(y, x) for y in range(h) for x in range(w)]
+        k = draw(st.integers(14, len(cells)))
     picked = draw(st.lists(st.sampled_from(cells), min_size=k, max_size=k, unique=True))
     col = draw(st.sampled_from(COLORS))
-    n0 = draw(st.integers(1, k - 2))                        # partners present from the start
+    n0 = draw(st.integers(1, k - 2)) if k <= 6 else draw(st.integers(k - 4, k - 2))     # partners present from the start
     edits = draw(st.lists(st.tuples(st.sampled_from(['add', 'add', 'remove', 'recolour']), st.integers(0, 9)), min_size=1, max_size=3))
     return {'shape': [h, w], 'home': list(picked[0]), 'partners': [list(p) for p in picked[1:1 + n0]], 'spare': [list(p) for p in picked[1 + n0:]], 'colour': col,
             'edits': [list(e) for e in edits], 'first_pick': draw(st.integers(0, 5)), 'heading': draw(st.sampled_from(HEADINGS))}
@@ -379,7 +384,7 @@ def oracle_tele_hist(case, ctx):
     if got != set(partners):
         ctx.fail(f'after the world was edited ({[e[0] for e in case["edits"]]}) and the agent put back on its telepod at {home}: destinations over all outcomes of the choice {sorted(got)}, '
                  f'same-coloured telepods now {sorted(partners)} (choice among {radix})', {'kind': 'teleport_possibility', 'aspect': 'history'})
-    ctx.ev.case(case, nt=True, classes=sorted({'edit:' + e[0] for e in case['edits']}) + [f'partners_now:{min(len(partners), 3)}', 'choice_scripted' if scripted else 'choice_sampled_256_seeds'])
+    ctx.ev.case(case, nt=True, classes=sorted({'edit:' + e[0] for e in case['edits']}) + [f'partners_now:{min(len(partners), 3)}', 'choice_scripted' if scripted else 'choice_sampled_256_seeds'] + (['partners>=13'] if len(partners) >= 13 else []))
 
 
 from vgv import worldedit  # noqa: E402
@@ -440,4 +445,4 @@ CHECKS.append(Check('coordinate_sweep', oracle_sweep, enumerate=enum_sweep, shar
 
 CHECKS.append(Check('telepod_histories', oracle_tele_hist, strategy=strat_tele_hist, examples={'quick': 200, 'thorough': 1000}, shards={'quick': 2, 'thorough': 16},
                     rule='one world in place: teleport once, then same-coloured telepods are added / removed / recoloured through the public API, the agent put back on its telepod: the set of destinations over every outcome of the choice == the telepods of that colour now',
-                    required=['edit:add', 'edit:remove', 'edit:recolour']))
+                    required=['edit:add', 'edit:remove', 'edit:recolour', 'partners>=13']))
